@@ -151,6 +151,19 @@ def diag_index(shells, blockfn):
     return np.concatenate(parts, axis=0)
 
 
+def abs_shells(shells):
+    """Copies with |coefficients| (normalisation constants kept): integrals over them bound the magnitude of the terms
+    that are added up for the true functions, so they give scales that cannot cancel to zero."""
+    import copy
+
+    out = []
+    for s in shells:
+        t = copy.copy(s)
+        t.coeffs = np.abs(s.coeffs)
+        out.append(t)
+    return out
+
+
 def refs(shell_dicts, **kw):
     return [ShellRef(d, **kw) for d in shell_dicts]
 
